@@ -420,7 +420,7 @@ func cfgFor(prop string) propCfg {
 	case "C06":
 		return propCfg{profiles: []string{"dedup"}, progs: pick(260, 4000), scheds: 5, dfsLimit: pick(40, 200), dfsEvents: 9, pauses: true}
 	case "C07":
-		return propCfg{profiles: []string{"conc", "conc", "conc-fail"}, progs: pick(330, 6000), scheds: 6, dfsLimit: pick(40, 200), dfsEvents: 10, checkWork: true}
+		return propCfg{profiles: []string{"conc", "conc", "conc-fail"}, progs: pick(330, 4000), scheds: 6, dfsLimit: pick(40, 200), dfsEvents: 10, checkWork: true}
 	case "C13":
 		return propCfg{profiles: []string{"guard"}, progs: pick(200, 3000), scheds: 3, dfsLimit: pick(20, 100), dfsEvents: 8, pauses: true}
 	case "C14":
